@@ -427,6 +427,53 @@ func placeExec(c *Ctx, op string) {
 			pls = append(pls, pl{dst: d, jan: jan2, kind: "copy", mounted: true})
 			c.H("op:pp")
 			checkShelf("after a second copy placement at the same destination")
+		case "bb":
+			// the same destination placed and torn down again and again in one process (a daemon re-using a job directory),
+			// by read-only bind and by the mount placer: after every teardown no mount remains and the content is gone
+			if shelfRef == "" {
+				tartrans.Unpack(ctx, id, "-", uf, rio.Placement_None, wh, rio.Monitor{})
+				checkShelf("init")
+			}
+			if packPath != src {
+				continue
+			}
+			d := newDst("absent")
+			for round := 0; round < 3; round++ {
+				for _, kind := range []string{"bindro", "mountrw"} {
+					var jan placer.Janitor
+					var e error
+					if kind == "bindro" {
+						jan, e = placer.BindPlacer(fs.MustAbsolutePath(shelf), fs.MustAbsolutePath(d), false)
+					} else {
+						var pfn placer.Placer
+						if pfn, e = placer.GetMountPlacer(); e == nil {
+							jan, e = pfn(fs.MustAbsolutePath(shelf), fs.MustAbsolutePath(d), true)
+						}
+					}
+					if e != nil {
+						if !(envOvl && kind == "mountrw") {
+							c.PropFail("placement-failed", fmt.Sprintf("placement (%s) number %d at one destination failed: %v", kind, round+1, e), op)
+						}
+						continue
+					}
+					checkDst(d, fmt.Sprintf("placement (%s) number %d at one destination", kind, round+1), true)
+					if e := jan.Teardown(); e != nil {
+						c.PropFail("teardown-failed", fmt.Sprintf("teardown of placement (%s) number %d at one destination failed: %v", kind, round+1, e), op)
+					}
+					if mounted(d) {
+						c.PropFail("mount-left", fmt.Sprintf("after the teardown of placement (%s) number %d at one destination a mount remains there", kind, round+1), op)
+						for mounted(d) {
+							if syscall.Unmount(d, 0) != nil {
+								break
+							}
+						}
+					} else if sn, e := Snapshot(d); e == nil && len(sn) > 1 && sn.Digest(false) == want.Digest(false) {
+						c.PropFail("mount-left", fmt.Sprintf("after the teardown of placement (%s) number %d at one destination it still shows the placed content", kind, round+1), op)
+					}
+				}
+			}
+			c.H("op:bb")
+			checkShelf("after repeated placements at one destination")
 		case "w":
 			var i int
 			fmt.Sscan(x[1], &i)
@@ -813,7 +860,7 @@ func placeEngine(c *Ctx) {
 		}
 		// fixed prefix: the route x pre-state combinations that matter most, then the writable-mount life cycle
 		ops = append(ops, "u:copy:foreign", "u:copy:junk", "u:direct:absent", "u:none:absent")
-		ops = append(ops, "pp")
+		ops = append(ops, "pp", "bb")
 		if k%5 != 4 {
 			ops = append(ops, "u:mount:junk", "u:mount:symlink", "u:copy:symlink")
 		}
